@@ -285,6 +285,23 @@ func netC03(s *Sink, tier string) {
 			s.Fail(map[string]any{"op": "net-reply", "path": "broadcast", "strays": n}, fmt.Sprintf("after %d datagrams from other controllers the call did not wait for the addressed controller's reply, which came %d ms into a 1500 ms timeout (%v)", n, time.Since(t0).Milliseconds(), err))
 		}
 	}
+	// broadcast path: other controllers keep answering until after the deadline and the addressed controller's reply comes
+	// later still - the call ends at its deadline with an error; discarded datagrams do not extend the wait
+	{
+		nextIndex++
+		idx := nextIndex
+		farm.Plan(idx, Behaviour{Flood: true, FloodFor: 6 * T / 5, Delay: 7 * T / 5})
+		u := farmClient(farm, 0, T, nil, nil)
+		t0 := time.Now()
+		e, err := u.GetEvent(700000901, idx)
+		dur := time.Since(t0)
+		calls++
+		if err == nil || dur > T+120*time.Millisecond {
+			s.Fail(map[string]any{"op": "net-reply", "path": "broadcast", "mangle": "strays-past-the-deadline", "dur_ms": dur.Milliseconds()},
+				fmt.Sprintf("with stray replies arriving until after the deadline the call returned after %d ms (timeout %d ms) with result %v / error %v: a reply that came after the deadline was waited for", dur.Milliseconds(), T.Milliseconds(), e != nil, err))
+		}
+		time.Sleep(T) // let the farm finish
+	}
 	samePortReply(s, 300*time.Millisecond)
 	s.Extra["net_calls"] = calls
 	s.Extra["net_malformed_accepted"] = accepted
